@@ -564,6 +564,16 @@ ssize_t stun_message_validate_buffer_length_fast (StunInputVector *buffers,
     return STUN_MESSAGE_BUFFER_INVALID;
   }
 
+  /* Skip leading zero-length buffers: they hold no byte to look at. */
+  while (buffers[0].size == 0)
+  {
+    buffers++;
+    if (n_buffers > 0)
+      n_buffers--;
+    if (n_buffers == 0 || buffers[0].buffer == NULL)
+      return STUN_MESSAGE_BUFFER_INVALID;
+  }
+
   if (buffers[0].buffer[0] >> 6)
   {
     return STUN_MESSAGE_BUFFER_INVALID; // RTP or other non-STUN packet
@@ -597,8 +607,16 @@ ssize_t stun_message_validate_buffer_length_fast (StunInputVector *buffers,
     if (buffers[i].size - skip_remaining > 1) {
       mlen = stun_getw (buffers[i].buffer + skip_remaining);
     } else {
+      unsigned int j = i + 1;
+
+      /* The low byte is in the next non-empty buffer. */
+      while (((n_buffers >= 0 && j < (unsigned int) n_buffers) ||
+                 (n_buffers < 0 && buffers[j].buffer != NULL)) &&
+             buffers[j].size == 0)
+        j++;
+
       mlen = (*(buffers[i].buffer + skip_remaining) << 8) |
-             (*(buffers[i + 1].buffer));
+             (*(buffers[j].buffer));
     }
   }
 
